@@ -180,10 +180,12 @@ class Simplifier(walkers.dag.DagWalker):
 
     def walk_exists(self, expression: FNode, args: List[FNode]) -> FNode:
         assert len(args) == 1
-        free_vars: FrozenSet["up.model.variable.Variable"] = (
-            self.environment.free_vars_oracle.get_free_variables(args[0])
+        fvo = self.environment.free_vars_oracle
+        free_vars: FrozenSet["up.model.variable.Variable"] = fvo.get_free_variables(
+            args[0]
         )
-        vars = set(var for var in expression.variables() if var in free_vars)
+        # keep the declaration order: the result must not depend on set iteration
+        vars = [var for var in expression.variables() if var in free_vars]
         # Here we check if the arg is in the form:
         # phi(l_i) and l_i == x with phi and x general formulae and l_i a variable
         # bounded to this Exists.
@@ -202,15 +204,14 @@ class Simplifier(walkers.dag.DagWalker):
                             or variable.variable() not in vars
                         ):
                             variable, value = value, variable
-                        value_free_vars = (
-                            self.environment.free_vars_oracle.get_free_variables(
-                                args[0]
-                            )
-                        )
+                        # l_i == x can be eliminated only if x does not mention l_i and
+                        # every value of x is in the domain of l_i
                         if (
                             variable.is_variable_exp()
                             and variable.variable() in vars
-                            and variable not in value_free_vars
+                            and variable.variable()
+                            not in fvo.get_free_variables(value)
+                            and variable.type.is_compatible(value.type)
                         ):
                             check_equality_simplification = True
                             new_arg = self.manager.And(
@@ -219,10 +220,24 @@ class Simplifier(walkers.dag.DagWalker):
                             new_arg = new_arg.substitute({variable: value})
                             vars.remove(variable.variable())
                             break
+        if new_arg is not args[0]:
+            # the substitution can enable further simplifications
+            new_arg = self._nested_walk(new_arg)
+            free_vars = fvo.get_free_variables(new_arg)
+            vars = [var for var in vars if var in free_vars]
         if vars:
             return self.manager.Exists(new_arg, *vars)
         else:
             return new_arg
+
+    def _nested_walk(self, expression: FNode) -> FNode:
+        """Simplifies `expression` from inside a walk_* method: the pending work of the
+        outer walk is set aside, the memoization is shared."""
+        outer_stack, self.stack = self.stack, []
+        try:
+            return self.walk(expression)
+        finally:
+            self.stack = outer_stack
 
     def walk_forall(self, expression: FNode, args: List[FNode]) -> FNode:
         assert len(args) == 1
@@ -403,7 +418,7 @@ class Simplifier(walkers.dag.DagWalker):
             if right.constant_value() < 0:
                 value = -right.constant_value()
                 fnode_constant_values = self._number_to_fnode(value)
-                return self.manager.Plus(left, fnode_constant_values)
+                return self.walk_plus(expression, [left, fnode_constant_values])
             else:
                 return self.manager.Minus(left, right)
         else:
@@ -447,7 +462,7 @@ class Simplifier(walkers.dag.DagWalker):
         value: Union[Fraction, int, float] = 0
         if left.is_int_constant() and right.is_int_constant():
             if (left.constant_value() % right.constant_value()) == 0:
-                value = int(left.constant_value() / right.constant_value())
+                value = left.constant_value() // right.constant_value()
             else:
                 value = Fraction(left.constant_value(), right.constant_value())
         elif (left.is_int_constant() or left.is_real_constant()) and (
